@@ -145,6 +145,12 @@ func (s *status) UpdateShardMetadata(namespace string, shard int64, shardMetadat
 	if !exist {
 		return
 	}
+	if existing, found := ns.Shards[shard]; found && existing.Status == model.ShardStatusDeleting {
+		// The namespace was removed and the shard is waiting to be deleted. An election or node swap
+		// that was still in flight in the shard controller must not bring it back as a live shard
+		// (it would be published again as the only shard of its namespace until it is deleted).
+		shardMetadata.Status = model.ShardStatusDeleting
+	}
 	ns.Shards[shard] = shardMetadata
 	_ = backoff.RetryNotify(func() error {
 		versionID, err := s.metadata.Store(clonedStatus, s.currentVersionID)
